@@ -19,7 +19,9 @@
 from __future__ import annotations
 import json
 import os
+import random
 import shutil
+import time
 import tempfile
 
 from .. import common, impl, tlc, versions
@@ -132,6 +134,44 @@ def probe_table(ck, vs, docs, vset, tag):
     return rows
 
 
+def schema_table(ck, vs, names, vset, tag):
+    cst, env = setup(vs, [], names, vset, tag, mode="schemas")
+    r = tlc.run("Validator", tlc.cfg_text(constants=cst, invariants=["EmitSchemas"]), tag=tag, workers=1, timeout=900, env=env)
+    ck.add_tlc(tag, r)
+    if r.violated:
+        raise MachineryFailure("schema table run violated %s" % r.violated)
+    rows = [row for p in r.prints if isinstance(p, list) for row in p]
+    if {row["name"] for row in rows} != set(names) | {"map"}:
+        raise MachineryFailure("TLC printed schema rows for %s" % sorted({row["name"] for row in rows}))
+    return sorted(rows, key=lambda r: (r["name"], r["v"]))
+
+
+def run_schemas(ck, vs, rows, tmp):
+    """get_versioned_schema / create on fresh Validators against the schema table"""
+    rp = Replayer(vs, [], tmp)
+    for row in rows:
+        for op, exp in (("get_versioned", {"absent": row["absent"]}), ("mod_create", {"defaults": row["defaults"]})):
+            if op == "mod_create" and row["name"] == "symbolset":
+                continue
+            c = {"op": op, "name": row["name"], "v": row["v"]}
+            ck.count()
+            try:
+                got = rp.call(impl.Validator(), c)
+            except Exception as ex:  # noqa: BLE001
+                ck.violation("C09|schema|%s|%s|raised|%s" % (op, row["name"], type(ex).__name__),
+                             "%s on %s raised %s: %s" % (call_txt(c), row["name"], type(ex).__name__, str(ex)[:120]),
+                             {"kind": "history", "history": [{"call": c, "exp": exp}], "step": 0, "origin": "schemas"})
+                continue
+            if row["absent"] or row["defaults"]:
+                ck.nontrivial((op, row["name"], row["v"]))
+            if not rp.agrees(got, exp):
+                for s in vs_entry_classes(vs, c, got, exp) or ["?"]:
+                    ck.violation("C09|schema|%s|%s|%s" % (op, row["name"], s),
+                                 "%s on %s answers %s on a fresh Validator, the contract says %s" % (
+                                     call_txt(c), row["name"], brief(got), brief(exp)),
+                                 {"kind": "history", "history": [{"call": c, "exp": exp}], "step": 0, "origin": "schemas", "got": got})
+
+
 class Judges:
     """fresh Validator per (root schema, version): a probe never sees another version's history"""
 
@@ -214,6 +254,16 @@ def run_probes(ck, vs, docs, rows, module_every):
     return n_mod
 
 
+def bound_versions(vs):
+    out = set()
+    for e in vs.entries:
+        if e["min"] != versions.NOMIN:
+            out |= {e["min"] - 1, e["min"]}
+        if e["max"] != versions.NOMAX:
+            out |= {e["max"], e["max"] + 1}
+    return sorted(out)
+
+
 def case(d, row, msgs):
     return {"kind": "probe", "doc": {k: d[k] for k in ("id", "root", "entry", "covers", "guards", "shadow", "fault", "ctx", "dict")},
             "row": row, "messages": msgs}
@@ -230,15 +280,34 @@ def history_runs(ck, vs, vset, n, seed, tag, max_calls=5):
     docs = [d for d in docs if not (d["id"] in seen or seen.add(d["id"]))]
     cst, env = setup(vs, docs, H_NAMES, vset, tag, max_calls=max_calls, mode="sim")
     cfg = tlc.cfg_text(constants=cst, invariants=["Emit", "CacheSound", "HistoryIndependent"])
-    r = tlc.run("Validator", cfg, tag=tag, mode="simulate", simulate="num=%d" % n, depth=max_calls + 2, seed=seed,
-                workers=1, timeout=1800, env=env)
+    # (the simulator checks - and so Emit prints - every candidate successor of the last step: one
+    #  requested trace yields a bundle of histories sharing a prefix; ask for fewer, sample n)
+    r = tlc.run("Validator", cfg, tag=tag, mode="simulate", simulate="num=%d" % max(5, n // 3), depth=max_calls + 2,
+                seed=seed, workers=1, timeout=1800, env=env)
     ck.add_tlc(tag, r)
     if r.violated:
         raise MachineryFailure("Validator invariant %s violated in simulation" % r.violated)
     hs = [h for h in r.prints if isinstance(h, list) and h]
     if len(hs) < n * 0.9:
         raise MachineryFailure("TLC produced %d histories, wanted %d" % (len(hs), n))
-    return docs, hs
+    random.Random(seed).shuffle(hs)
+    return docs, hs[:n]
+
+
+def pair_histories(ck, vs, vset, tag):
+    """every history of exactly two calls over a small representative set (exhaustive, not sampled):
+    two calls are the minimal witness of a cache-key / in-place-pruning leak"""
+    want = ("layer.opacity@map/layers", "label.priority/anyOf/2@map/layers/classes/labels", "layer.utfdata@layer")
+    docs = [d for d in vs.entry_docs(entry_ids={"layer.opacity", "label.priority/anyOf/2", "layer.utfdata"}) if d["id"] in want]
+    if len(docs) != len(want):
+        raise MachineryFailure("representative documents missing: %s" % [d["id"] for d in docs])
+    cst, env = setup(vs, docs, ["map", "layer"], vset, tag, max_calls=2, mode="all")
+    cfg = tlc.cfg_text(constants=cst, invariants=["Emit", "CacheSound", "HistoryIndependent"])
+    r = tlc.run("Validator", cfg, tag=tag, workers=1, timeout=1800, env=env)
+    ck.add_tlc(tag, r)
+    if r.violated:
+        raise MachineryFailure("Validator invariant %s violated" % r.violated)
+    return docs, [h for h in r.prints if isinstance(h, list) and len(h) == 2]
 
 
 class Replayer:
@@ -331,12 +400,11 @@ def replay_history(ck, rp, hist, origin):
         alone = rp.call(impl.Validator(), c)
         subject = c.get("doc") or c.get("name")
         if not rp.agrees(alone, exp):
-            what = describe(vs_entry_classes(rp.vs, c, alone, exp))
-            for s in what:
-                ck.violation("C09|schema|%s|%s|%s" % (c["op"], subject, s) if "reject" not in exp else
-                             "C09|history|wrong-alone|%s|%s" % (call_txt(c), subject),
-                             "%s on %s answers %s on a fresh Validator, the contract says %s" % (call_txt(c), subject, brief(alone), brief(exp)),
-                             {"kind": "history", "history": [step], "step": 0, "origin": origin, "got": alone})
+            # not a matter of history: the entry probes / the schema table name the entries
+            ck.violation("C09|history|wrong-alone|%s|%s" % (call_txt(c), subject),
+                         "%s on %s answers %s on a fresh Validator, the contract says %s (%s)" % (
+                             call_txt(c), subject, brief(alone), brief(exp), "; ".join(vs_entry_classes(rp.vs, c, alone, exp)[:4])),
+                         {"kind": "history", "history": [step], "step": 0, "origin": origin, "got": alone})
             continue
         culprit = "several"
         for j in range(i - 1, -1, -1):
@@ -367,11 +435,7 @@ def vs_entry_classes(vs, c, got, exp):
     if "defaults" in exp:
         return ["%s|%s|%s" % (e, versions.vclass(vs.by_id[e], c["v"]), "kept" if e in got["defaults"] else "dropped")
                 for e in sorted(set(got["defaults"]) ^ set(exp["defaults"]))]
-    return ["?"]
-
-
-def describe(xs):
-    return xs or ["?"]
+    return []
 
 
 def brief(a):
@@ -390,8 +454,11 @@ def run(tier):
     vs = versions.get()
     if len(vs.entries) < 50:
         raise MachineryFailure("only %d annotated entries found" % len(vs.entries))
+    t0 = time.time()
     # (M)
     model_check(ck, vs, quick)
+    ck.notes.append("model checking %.1fs" % (time.time() - t0))
+    t0 = time.time()
     # (G1)+(G3): quick = every entry x its versions in every context it has; rows are cheap
     docs = vs.entry_docs(contexts="all")
     faults = vs.fault_docs("root" if quick else "all")
@@ -399,11 +466,19 @@ def run(tier):
     rows = probe_table(ck, vs, docs + faults, fault_versions, "c09_table")
     n_mod = run_probes(ck, vs, docs + faults, rows, module_every=(11 if quick else 1))
     ck.sample({"probe": rows[len(rows) // 3], "document": next(d["dict"] for d in docs + faults if d["id"] == rows[len(rows) // 3]["doc"])})
-    # (G2)
+    ck.notes.append("probes %.1fs" % (time.time() - t0))
+    t0 = time.time()
     tmp = tempfile.mkdtemp(prefix="c09_")
     n_hist = 0
+    n_pairs = 0
     steps = 0
     try:
+        # schema objects and create() for every schema name x every version at / next to a bound
+        srows = schema_table(ck, vs, vs.types, bound_versions(vs), "c09_schemas")
+        run_schemas(ck, vs, srows, tmp)
+        ck.notes.append("schemas %.1fs" % (time.time() - t0))
+        t0 = time.time()
+        # (G2)
         sets = [VERSION_SETS[0], VERSION_SETS[1 + seed % (len(VERSION_SETS) - 1)]] if quick else VERSION_SETS
         per = 110 if quick else 1300
         for k, vset in enumerate(sets):
@@ -416,11 +491,20 @@ def run(tier):
             n_hist += len(hs)
             if k == 0:
                 ck.sample({"history": hs[0]})
+        if not quick:
+            pdocs, ps = pair_histories(ck, vs, (50, 76, 77), "c09_pairs")
+            rp = Replayer(vs, pdocs, tmp)
+            for h in ps:
+                replay_history(ck, rp, h, "all-pairs")
+                ck.nontrivial([(s["call"]["op"], s["call"].get("doc") or s["call"].get("name"), s["call"]["v"]) for s in h])
+                steps += len(h)
+            n_pairs = len(ps)
     finally:
         shutil.rmtree(tmp, ignore_errors=True)
+    ck.notes.append("histories %.1fs" % (time.time() - t0))
     return ck.finish(exhaustive=False, coverage_extra={
         "annotated_entries": len(vs.entries), "probe_documents": len(docs), "fault_documents": len(faults),
-        "probe_rows": len(rows), "module_level_probes": n_mod, "histories": n_hist, "history_steps": steps,
+        "probe_rows": len(rows), "schema_rows": len(srows), "module_level_probes": n_mod, "histories": n_hist, "exhaustive_two_call_histories": n_pairs, "history_steps": steps,
         "contexts_via_alternative": sum(1 for d in docs if d["via_alt"])})
 
 
